@@ -33,14 +33,6 @@ def classOf (c : Char) : CClass :=
   else if c = 's' then .space
   else .other
 
-/-- Python's classes of the ASCII characters (used for characters that are not in the request,
-    e.g. the `'0'` padding of `_parsems`) -/
-def asciiCls (c : Char) : CClass :=
-  if ('a' ≤ c ∧ c ≤ 'z') ∨ ('A' ≤ c ∧ c ≤ 'Z') then .alpha
-  else if '0' ≤ c ∧ c ≤ '9' then .decDigit (c.toNat - '0'.toNat)
-  else if c = ' ' ∨ (9 ≤ c.toNat ∧ c.toNat ≤ 13) ∨ (28 ≤ c.toNat ∧ c.toNat ≤ 31) then .space
-  else .other
-
 /-- the classification function for one request: a finite table, ASCII classes elsewhere -/
 def mkCls (cps : List Char) (classes : String) : Char → CClass :=
   let tbl := cps.zip (classes.toList.map classOf)
